@@ -27,6 +27,7 @@ func handlerScope(c *cx) ([]*eng.Fn, map[*eng.Fn]string) {
 
 func runC06(p *eng.Prog, r *eng.Report, tier string) {
 	c := &cx{p, r, tier}
+	c.r.Floor("C06.39", "returns with a deferred release pending", deferredReleaseFindsTheLockHeld(c, "C06.39", ""), 20)
 	r17BorrowedReaderNotClosed(c, "C06.38")
 	// C06.32 (= C09.17 / C10.10): no cycle in the lock-order graph: a deadlock between a
 	// writer and Close, or between the serve loop and a requester, ends every guarantee of this property
